@@ -235,14 +235,15 @@ class Oracle:
         tolc = Fraction(8 * (n + m + 8) * EPS) * ex["crps"] + Fraction(1, 10 ** 300)
         tolg = Fraction(K) * scale + Fraction(1, 10 ** 300)
         self.tolfreq = Fraction(K)
+        if not all(math.isfinite(v) for v in res[1]):
+            self.flag("crps/non_finite", "a decomposition term is NaN or infinite on finite input", case, returned=res[1])
+            return None, tolg
         if not qclose(crps, ex["crps"], tolc):
             self.flag("crps/value_ne_definition", "returned CRPS differs from mean(E|X-y| - E|X-X'|/2)", case,
                       returned=crps, required=ex["crps"])
         if any(isnan(v) or v < 0 for v in (reli, pot, unc)):
             self.flag("crps/negative_or_nan_component", "reliability, potential or uncertainty is negative or NaN",
                       case, reliability=reli, potential=pot, uncertainty=unc)
-        elif not all(math.isfinite(v) for v in res[1]):
-            self.flag("crps/non_finite", "a decomposition term is not finite on finite input", case, returned=res[1])
         else:
             if abs(Fraction(crps) - (Fraction(reli) + Fraction(pot))) > tolg:
                 self.flag("crps/ne_reliability_plus_potential", "crps != reliability + potential", case,
@@ -529,6 +530,8 @@ def run_cases(ctx, cases, tag):
             orc.flag(sig, "finite, well-shaped input is rejected: " + res[1], slim, kept_forecasts=nn)
             continue
         ex, tolg = orc.basic(slim, res)
+        if ex is None:
+            continue
         big = len(case["obs"]) * case["m"] > 200
         if not big or rng.random() < 0.2:
             orc.climatology(slim, res, ex)
